@@ -50,7 +50,8 @@ def install(eng):
     eng.inputs = None
     bn = {}
     for name, fn in BUILTIN_FUNCS.items():
-        bn[name] = PyObj('builtin', fn)
+        if fn is not None:
+            bn[name] = PyObj('builtin', fn)
     for name in list(eng.exc.parent):
         if '.' not in name:
             bn.setdefault(name, PyObj('excclass', name))
@@ -73,6 +74,7 @@ def install(eng):
     bn['None'] = VNONE
     eng.builtin_names = bn
     eng.bvmode = None
+    eng.forall_mode = 'assume'
     eng.unit_func = None
     eng.unit_short = None
     eng.strconst = {}
@@ -169,8 +171,11 @@ def index(eng, base, idx):
         n = z3.Length(base.t)
         i = eng.num(idx).t
         eng.prove_internal('list index', z3.And(i >= -n, i < n), 'IndexError')
-        j = z3.If(i < 0, i + n, i)
-        return V(base.ty[1], base.t[z3.simplify(j)])
+        j = z3.simplify(z3.If(i < 0, i + n, i))
+        item = V(base.ty[1], base.t[j])
+        if not eng.pure:
+            on_elem_read(eng, base.t, j, item)
+        return item
     if k == 'bytes':
         n = z3.Length(base.t)
         i = eng.num(idx).t
@@ -281,11 +286,18 @@ def unpack_at(eng, fmt, data_t, pos_t):
     codes = parse_struct_fmt(fmt)
     vals = []
     off = 0
+    org = slice_origin(data_t)
     for ch, cnt in codes:
         size, lo, hi, nm = STRUCT_CODES[ch]
         for _ in range(cnt):
-            term = u_fn(nm)(data_t, z3.simplify(pos_t + off))
+            p = z3.simplify(pos_t + off)
+            term = u_fn(nm)(data_t, p)
             eng.axiom(z3.And(term >= lo, term <= hi))
+            if org is not None:
+                # decoding inside a slice == decoding the base at the shifted position (when the slice lies in the base)
+                base, start, ln = org
+                inside = z3.And(start >= 0, p >= 0, p + size <= ln, start + ln <= z3.Length(base))
+                eng.axiom(z3.Implies(inside, term == u_fn(nm)(base, z3.simplify(start + p))))
             vals.append(V(INT, term))
             off += size
     return vals, off
@@ -457,10 +469,60 @@ def b_tuple(eng, args, kwargs, fr, node):
     raise_unsupported('tuple() of %s' % (v.ty,))
 
 
+def b_forall_items(eng, args, kwargs, fr, node):
+    """contract language: forall_items(xs, pred) == all(pred(x) for x in xs)  (pred: a pure spec function of one item).
+    No quantifier reaches the solver: when assumed, the fact is instantiated by the generator at every element read
+    from xs; when it has to be proved, it is proved for a fresh (skolem) index."""
+    xs, pred = args[0], args[1]
+    if xs.ty[0] != 'list':
+        raise_unsupported('forall_items over %s' % (xs.ty,))
+    if xs.ty[1] == ANY:
+        return vbool(True)
+    if eng.forall_mode == 'assume':
+        eng.st.ghost.setdefault('foralls', []).append((xs, pred, fr, node))
+        return vbool(True)
+    j = eng.fresh(INT, 'sk')
+    item = V(xs.ty[1], xs.t[j.t])
+    body = eng.truth(eng.call(pred, [item], {}, fr, node))
+    return vbool(z3.Implies(z3.And(j.t >= 0, j.t < z3.Length(xs.t)), body))
+
+
+def on_elem_read(eng, xs_t, idx_t, item):
+    for xs, pred, fr, node in eng.st.ghost.get('foralls', []):
+        if xs.t.eq(xs_t):
+            saved = eng.pure
+            eng.pure = True
+            try:
+                body = eng.truth(eng.call(pred, [item], {}, fr, node))
+            finally:
+                eng.pure = saved
+            eng.assume(z3.Implies(z3.And(idx_t >= 0, idx_t < z3.Length(xs_t)), body))
+
+
+def b_time_read(eng, args, kwargs, fr, node):
+    """contract language: the k-th value time.time() returned during this activation"""
+    k = z3.simplify(args[0].t).as_long()
+    return V(REAL, z3.Const('time_read_%d' % k, z3.RealSort()))
+
+
+def b_drain(eng, args, kwargs, fr, node):
+    """contract language: items produced by draining a generator value"""
+    from .contracts import CONTRACTS
+    g = args[0]
+    if not isinstance(g, V) or g.ty[0] != 'gen':
+        raise_unsupported('drain() of a non-generator')
+    return eng.drain_term(g, CONTRACTS[g.ty[1]])
+
+
 def b_list(eng, args, kwargs, fr, node):
     if not args:
         return V(('list', ANY), None)
     v = args[0]
+    if isinstance(v, V) and v.ty[0] == 'gen':
+        items, after = eng.drain_gen(v, fr)
+        if after is not None:
+            after()
+        return items
     if v.ty[0] == 'list':
         return v
     if v.ty[0] == 'dict':
@@ -566,6 +628,8 @@ def fmt_tuple_ty(fmt):
 
 
 BUILTIN_FUNCS = {
+    'mkgen': lambda *a: b_mkgen(*a), 'drain': b_drain, 'forall_items': b_forall_items, 'time_read': b_time_read,
+    'int': None,
     'unpack_tuple': b_unpack_tuple, 'calcsize': b_calcsize,
     'len': b_len, 'isinstance': b_isinstance, 'min': b_min, 'max': b_max, 'abs': b_abs, 'range': b_range,
     'enumerate': b_enumerate, 'zip': b_zip, 'implies': b_implies, 'ite': b_ite, 'repr': b_repr,
@@ -672,13 +736,39 @@ def m_crc32(eng, args, kwargs, fr, node):
 
 
 def m_time(eng, args, kwargs, fr, node):
-    t = eng.fresh(REAL, 'now')
-    eng.axiom(t.t >= 0)
-    eng.st.ghost.setdefault('time_reads', []).append(t)
+    reads = eng.st.ghost.setdefault('time_reads', [])
+    t = V(REAL, z3.Const('time_read_%d' % len(reads), z3.RealSort()))
+    eng.axiom(z3.And(t.t >= 0, t.t < 9000000000000000))     # wall clock below year ~287000 (stated assumption)
+    reads.append(t)
     return t
 
 
+def m_iter_unpack(eng, args, kwargs, fr, node):
+    from .engine import PyObj
+    fmt = fmt_of(eng, args[0], node.args[0], fr)
+    data = args[1]
+    if data.ty[0] == 'opt':
+        eng.prove_internal('iter_unpack of None', z3.Not(T.is_none(data)), 'TypeError')
+        data = T.opt_val(data)
+    return PyObj('iter_unpack', (fmt, data))
+
+
+def b_mkgen(eng, args, kwargs, fr, node):
+    """contract language: the generator value `qualname(*args)` (lazy, nothing executed)"""
+    from .contracts import CONTRACTS
+    qn = fmt_of(eng, args[0], node.args[0], fr)
+    c = CONTRACTS[qn]
+    tys = tuple(p[1] for p in c.params) + tuple(T.parse_ty(c.closure_env[n]) for n in c.closure_env if c.closure_env[n] != 'closure')
+    vals = []
+    for a, t in zip(args[1:], tys):
+        if a.ty[0] == 'opt' and t[0] != 'opt':
+            a = T.opt_val(a)      # contract text: a null argument is outside the callee's domain (underspecified)
+        vals.append(T.coerce(a, t))
+    return V(('gen', qn, tys), T.mk_tuple(vals).t)
+
+
 MODULE_FUNCS = {
+    'struct.iter_unpack': m_iter_unpack,
     'struct.pack': m_struct_pack, 'struct.unpack': m_struct_unpack, 'struct.calcsize': m_struct_calcsize,
     'zlib.crc32': m_crc32, 'time.time': m_time,
 }
